@@ -435,7 +435,21 @@ func c02Batch(p *load.Program, r *oblig.Report) {
 			g = append(g, clean(c))
 		}
 		v := clean(an.ShapeCanon(s.Val))
-		// every path through the conn != nil region performs the store (a disjunctive guard leaves no dominating condition)
+		// repair 0f727be: the connection only moves forward (the batch may have ended while it was still skipping
+		// the records that precede the connection's offset). The comparison is the only condition besides conn != nil,
+		// and every path through the conn != nil region reaches it (a disjunctive guard leaves no dominating
+		// condition, hence the must-pass search).
+		var cmp ssa.Instruction
+		const forward = "(batch.conn.offset < batch.offset)"
+		for d, child := s.Block().Idom(), s.Block(); d != nil; d, child = d.Idom(), d {
+			iff, ci := an.IfCond(d)
+			if iff == nil || ci == nil {
+				continue
+			}
+			if c := clean(an.ShapeCanon(iff.Cond)); c == forward && edgeControls(d, 0, child) {
+				cmp = iff
+			}
+		}
 		uncond := false
 		// the store may sit in a helper that did not exist at review time: also walk up from its call site
 		at := []ssa.Instruction{s}
@@ -457,14 +471,15 @@ func c02Batch(p *load.Program, r *oblig.Report) {
 				if !edgeControls(d, idx, child) {
 					continue
 				}
-				ok2, _ := an.MustPass(cl, an.Point{B: d.Succs[idx], Idx: -1}, func(i ssa.Instruction) bool { return i == ssa.Instruction(s) }, nil)
+				ok2, _ := an.MustPass(cl, an.Point{B: d.Succs[idx], Idx: -1}, func(i ssa.Instruction) bool { return cmp != nil && i == cmp }, nil)
 				uncond = ok2
 			}
 		}
 		if !uncond {
 			g = append(g, "further conditions on some path")
 		}
-		r.Check(v == "batch.offset" && strings.Join(g, " ∧ ") == "(nil != batch.conn)", rule, "kafka.(*Batch).close hands the batch's progress back to the connection whatever the outcome", p.Pos(s.Pos()), "conn.offset = batch.offset when conn != nil (no other condition)", v+" when "+strings.Join(g, " ∧ "))
+		sort.Strings(g)
+		r.Check(v == "batch.offset" && strings.Join(g, " ∧ ") == forward+" ∧ (nil != batch.conn)", rule, "kafka.(*Batch).close hands the batch's progress back to the connection whatever the outcome, and never moves it backwards", p.Pos(s.Pos()), "if batch.offset > conn.offset { conn.offset = batch.offset } when conn != nil (no other condition)", v+" when "+strings.Join(g, " ∧ "))
 	})
 	r.RequireCount(rule+" (Conn.offset store in Batch.close)", n, 1)
 	// ReadMessage: skip loop and reported offset
